@@ -327,6 +327,18 @@ impl<T: SnapTunAuthorization> SnapTunServer<T> {
                     WgKind::HandshakeInit(wg_init),
                     &mut tunn,
                 );
+                // `parse_handshake_anon` only decrypts the static key the
+                // initiator claims; whether the initiator owns that key is
+                // established by the tunnel when it processes the handshake.
+                // Do not keep tunnel state (which attributes all later traffic
+                // on this socket address to `peer_static`) for a handshake
+                // that failed this check.
+                if let TunnResult::Err(err) = res {
+                    tracing::debug!(remote = ?from, err = ?err, "handshake init rejected by new tunnel, not inserting tunnel");
+                    return HandleIncomingPacketResult::Result {
+                        result: TunnResult::Err(err),
+                    };
+                }
                 // Derive the caller-visible forwarded-packet result before
                 // moving `session_data` into the active-tunnel entry below.
                 let handled = Self::incoming_packet_result(res, session_data.clone(), packet_now);
